@@ -119,7 +119,7 @@ func c10Configs(run *vfRun, w *vfWorld) []c10Cfg {
 		add("cookie", c10Name(rng, n), n >= 255 || n == 1, "name", "", "", false)
 	}
 	// names with characters that are special in regular expressions or look like part suffixes
-	for _, nm := range []string{"my+cookie", "a.b", "s$^*|~", "sess_1", "s_0_", "x_10", c10Name(rng, 250) + "+$", c10Name(rng, 249) + "_7"} {
+	for _, nm := range []string{"my+cookie", "a.b", "s$^*|~", "sess_1", "s_0_", "x_10", c10Name(rng, 250) + "+$", c10Name(rng, 249) + "_7", c10Name(rng, 254) + "_0", c10Name(rng, 254) + "_1", c10Name(rng, 253) + "_0"} {
 		add("cookie", nm, false, "special", "", "", false)
 	}
 	// attribute variants move the thresholds (the attributes are part of the 4096 bytes)
@@ -541,6 +541,10 @@ func (b *c10Browser) Save(sp c10Spec) (parts int, ok bool) {
 		if len(b.steps) > 1 {
 			sig = "c10:load-fails-after-save-with-history"
 		}
+		if parts > 1 && b.collides(lines) {
+			// input class of its own: the name the store gave to one PART of the split session is the configured cookie name itself
+			sig = "c10:split-part-named-like-the-unsplit-cookie"
+		}
 		b.run.Violation(sig, fmt.Sprintf("[%s] the saved session does not load (%v) after %s", b.cfg.Label, err, b.histString()), b.detail(nil))
 	default:
 		if d := c10Diff(snap, got); len(d) > 0 {
@@ -560,6 +564,16 @@ func (b *c10Browser) Save(sp c10Spec) (parts int, ok bool) {
 	}
 	b.saved = append(b.saved, snap)
 	return parts, ok
+}
+
+// collides: one of several cookies set by a save carries exactly the configured cookie name.
+func (b *c10Browser) collides(lines []string) bool {
+	for _, l := range lines {
+		if c, err := http.ParseSetCookie(l); err == nil && c.MaxAge >= 0 && c.Name == b.cfg.Name {
+			return true
+		}
+	}
+	return false
 }
 
 // Clear clears the session and judges the load that follows.
